@@ -175,3 +175,20 @@ package driver
 //@       && ($arg4 <==> (cfg.Granularity == "lines" || cfg.Granularity == "addresses"))
 //@       && ($arg6 <==> cfg.Granularity == "addresses")
 //@   mustcall Profile.Aggregate always: true when $res0 == nil && !(cfg.Granularity == "addresses" && !cfg.NoInlines)
+
+// ---- C07: combineProfiles — sample types are aligned and units harmonised before anything is merged, on the very list of
+// profiles that is merged; a single profile is returned as it is (after alignment and harmonisation) ----
+//@ func combineProfiles nosafety
+//@   callsite CompatibilizeSampleTypes same_list: same_elems($arg0, profiles)
+//@   callsite ScaleProfiles same_list: same_elems($arg0, profiles) && aftercall("CompatibilizeSampleTypes", true)
+//@   callsite Merge same_list: same_elems($arg0, profiles) && aftercall("ScaleProfiles", true)
+//@   mustcall CompatibilizeSampleTypes aligned: true when $res2 == nil
+//@   mustcall ScaleProfiles harmonised: true when $res2 == nil
+//@   mustcall Merge merged: true when $res2 == nil && !(len(profiles) == 1 && len(msrcs) == 1)
+
+// ---- C19: the HTTP entry points of saved configurations hand the request to the settings editors unchanged: the settings
+// file of this UI, the request URL for saving, the config query parameter for deleting ----
+//@ func webInterface.saveConfig nosafety
+//@   callsite setConfig args: $arg0 == ui.settingsFile
+//@ func webInterface.deleteConfig nosafety
+//@   callsite removeConfig args: $arg0 == ui.settingsFile && $arg1 == name
